@@ -111,5 +111,9 @@ FIXED.append("fixed: property=C18 0ecdb41 patch.Delete(res, 'Patient.contained[0
 FIXED.append("fixed: property=C18 540625a patch.Delete(bundle, 'Bundle.entry[0].resource.contained[0].name[0]') returned nil without a change (the contained-copy guard looked at the root resource's own contained list only); pointed out by the C18 sub-agent")
 FIXED.append("fixed: property=C01 fcbf6dc a Bundle entry whose ContainedResource wrapper holds no resource made Bundle.entry.resource, Bundle.descendants(), Bundle.entry.children() and every patch operation below it panic (nil dereference in unwrapOneof); pointed out by the C01 sub-agent, covered by the new degenerate-resources sub-space")
 FIXED.append("fixed: property=C09 04cc5a2 `@2019-01-01T00Z + 3000000 hours` gave 1776-09-07T01Z and `@T00 + 3000000 hours` gave T01: an amount of hours / minutes / seconds / milliseconds beyond the 292 years a 64-bit duration holds wrapped around; it now yields empty (overflow); found after large amounts were added to the C09 grid")
+FIXED.append("fixed: property=C15 ac3e1cd a FHIR date element whose proto carries a time zone (e.g. from an unmarshaller with a default zone) became a System Date that printed 2020-01-01 but was not equal to @2020-01-01 (it kept midnight of that zone and Dates compare as instants); same for year/month/day-precision dateTime elements; found by the value-equals-what-it-prints oracle added for the seeded change C15-m9")
+k('C13', 'result-string-round-trip|Quantity|*qty.*unit*|empty|unit=', "a Quantity with the empty unit (literal 1 '', or a FHIR Quantity that has only a human-readable unit and no code) prints as the bare number, which reads back with unit '1' and is then not comparable with the original (empty-unit family, see string-round-trip|Quantity|qty.1)", {'src': "(1 '').toString().toQuantity() = (1 '')", 'got': '{}', 'want': 'true'})
+k('C13', 'string-round-trip|Quantity|*qty.*unit*|empty', "same defect seen through x.toString().toQuantity() = x for x a Quantity with the empty unit", {'src': "(1 '').toString().toQuantity() = (1 '')", 'got': '{}', 'want': 'true'})
+k('C13', 'table|Quantity|str.g.num.base|unconvertible-but-value', "same recorded defect as table|Quantity|str.g.datetime: toQuantity() accepts any letters after the number as a unit: '0x'.toQuantity() = 0 'x'", {'src': "'0x'.toQuantity()", 'got': "0 'x'", 'want': '{}'})
 if __name__ == '__main__':
     write()
